@@ -661,6 +661,7 @@ bus_driver_handle_list_services (DBusConnection *connection,
     if (!dbus_message_iter_append_basic (&sub, DBUS_TYPE_STRING,
                                          &v_STRING))
       {
+        dbus_message_iter_abandon_container (&iter, &sub);
         dbus_free_string_array (services);
         dbus_message_unref (reply);
         BUS_SET_OOM (error);
@@ -674,6 +675,7 @@ bus_driver_handle_list_services (DBusConnection *connection,
       if (!dbus_message_iter_append_basic (&sub, DBUS_TYPE_STRING,
                                            &services[i]))
         {
+          dbus_message_iter_abandon_container (&iter, &sub);
           dbus_free_string_array (services);
           dbus_message_unref (reply);
           BUS_SET_OOM (error);
@@ -1646,7 +1648,10 @@ bus_driver_handle_list_queued_owners (DBusConnection *connection,
       if (!dbus_message_iter_append_basic (&array_iter,
                                            DBUS_TYPE_STRING,
                                            &uname))
-        goto oom;
+        {
+          dbus_message_iter_abandon_container (&iter, &array_iter);
+          goto oom;
+        }
 
       link = _dbus_list_get_next_link (&base_names, link);
     }
